@@ -4,6 +4,7 @@
 //! from the property statement in 128-bit arithmetic; over-refusal is never a violation.
 
 use crate::engine::*;
+use crate::props::c05chain;
 use crate::props::holder::short_err;
 use crate::world::*;
 use lightning_signer::bitcoin::secp256k1::{PublicKey, SecretKey};
@@ -334,15 +335,24 @@ fn ref_bounds(
     bad
 }
 
+/// A C05 case is either a bounds case (this module) or a chain history (`c05chain`).  Untagged:
+/// a bounds case serialises exactly as before, so older replay files still load.
+#[derive(Clone, Debug, Serialize, Deserialize)]
+#[serde(untagged)]
+pub enum Case5 {
+    Bounds(Case),
+    Chain(c05chain::Case),
+}
+
 pub struct C05;
 
 impl Prop for C05 {
-    type Case = Case;
+    type Case = Case5;
     fn id(&self) -> &'static str {
         "C05"
     }
     fn rule(&self) -> String {
-        "generated policy (delay range, max channel size up to 2^40/u64::MAX, HTLC count and in-flight limits incl. 0, fee-rate range incl. \
+        let bounds = "Bounds group (about 70 % of the cases): generated policy (delay range, max channel size up to 2^40/u64::MAX, HTLC count and in-flight limits incl. 0, fee-rate range incl. \
          0 and u32::MAX, chain-state use, simple or on-chain validator, optionally one exact tag demoted to a warning) x channel setup (all \
          four commitment types, both contest delays at bound-1/bound/bound+1 of min or max, channel value normal / around the maximum size / \
          1e10 / 2^40 / 2^63 / near u64::MAX, push value) x one commitment request (holder or counterparty, phase 1 or 2, number 0 or 1) whose \
@@ -351,15 +361,17 @@ impl Prop for C05 {
          count around max_htlcs, in-flight sum around the limit, expiries around height+min/max delay and 500000000. Oracle: acceptance \
          (setup or commitment) implies the reference predicate written from the property statement in u128; a refusal is never judged. \
          Non-trivial: accepted requests with a quantity within +-1 of its bound or an arithmetic candidate; distinct by (entry, number, \
-         which quantities at which side of their bound)."
-            .into()
+         which quantities at which side of their bound).";
+        format!("{}  {}", bounds, c05chain::rule_text())
     }
     fn assumptions(&self) -> Vec<String> {
-        vec![
+        let mut v: Vec<String> = vec![
             "dust limit taken as 330 sat (the weakest BOLT-3 value; the code uses 354 for main outputs) so the oracle never demands more than the property".into(),
             "implied fee rate compared with a tolerance of +2 per kw below the minimum (the documented check rounds the rate up)".into(),
-            "on-chain validator: only the unconfirmed-funding state is reached here; confirmed and closed states are covered by the chain checks".into(),
-        ]
+            "bounds group: no blocks are connected, so with the on-chain validator every request for a number > 0 must be refused there; the confirmed, closed and reorged states are reached by the chain group".into(),
+        ];
+        v.extend(c05chain::assumptions());
+        v
     }
     fn cases(&self, tier: Tier) -> u32 {
         tier.pick(1500, 30_000)
@@ -367,7 +379,40 @@ impl Prop for C05 {
     fn min_nontrivial(&self, tier: Tier) -> usize {
         tier.pick(200, 2000)
     }
-    fn strategy(&self, _tier: Tier) -> BoxedStrategy<Case> {
+    fn strategy(&self, tier: Tier) -> BoxedStrategy<Case5> {
+        // debug knob: VERIF_C05_ONLY=chain|bounds restricts the generator to one group
+        let bounds = bounds_strategy().prop_map(Case5::Bounds);
+        let chain = c05chain::strategy(tier).prop_map(Case5::Chain);
+        match std::env::var("VERIF_C05_ONLY").unwrap_or_default().as_str() {
+            "chain" => chain.boxed(),
+            "bounds" => bounds.boxed(),
+            _ => prop_oneof![7 => bounds, 3 => chain].boxed(),
+        }
+    }
+
+    fn fixed_cases(&self) -> Vec<Case5> {
+        // debug knob (sensitivity runs): VERIF_C05_NOFIXED leaves the detection to the random histories
+        if std::env::var("VERIF_C05_NOFIXED").is_ok() {
+            return vec![];
+        }
+        c05chain::fixed_cases().into_iter().map(Case5::Chain).collect()
+    }
+
+    fn run(&self, case: &Case5, st: &mut CaseStats, ctx: &Ctx) -> Result<(), Violation> {
+        match case {
+            Case5::Bounds(c) => {
+                st.class("group:bounds");
+                run_bounds(c, st, ctx)
+            }
+            Case5::Chain(c) => {
+                st.class("group:chain");
+                c05chain::run(c, st, ctx)
+            }
+        }
+    }
+}
+
+fn bounds_strategy() -> BoxedStrategy<Case> {
         (
             (pol_strat(), any::<u8>(), any::<bool>(), delay_rel_strat(), any::<bool>(), delay_rel_strat(), any::<bool>(), value_strat()),
             (prop_oneof![4 => Just(Rel::Zero), 1 => Just(Rel::Abs(20_000_000)), 1 => Just(Rel::Abs(u64::MAX))], any::<bool>(), entry_strat()),
@@ -378,9 +423,10 @@ impl Prop for C05 {
                 pol, ctype, outbound, holder_delay, holder_delay_of_max: hdm, cp_delay, cp_delay_of_max: cdm, value, push, n1, entry, minor, minor_is_holder, fee, feerate_arg, htlcs, count_rel, inflight_rel,
             })
             .boxed()
-    }
+}
 
-    fn run(&self, case: &Case, st: &mut CaseStats, ctx: &Ctx) -> Result<(), Violation> {
+fn run_bounds(case: &Case, st: &mut CaseStats, ctx: &Ctx) -> Result<(), Violation> {
+    {
         let p = &case.pol;
         let policy = make_policy(p);
         let mut cfg = WorldCfg::default_testnet();
@@ -426,6 +472,30 @@ impl Prop for C05 {
                 st.nontrivial_shape(("setup", hd == p.min_delay, hd == p.max_delay, cd == p.min_delay, cd == p.max_delay, case.ctype % 16));
             }
         } else {
+            // a refused setup must not leave a usable channel behind: no commitment may be
+            // accepted for parameters that were refused, and the same setup stays refused
+            let secp = w.secp.clone();
+            let p0 = w.chans[ci].cp.point(&secp, 0);
+            let w0 = if anchors { 1124u64 } else { 724 };
+            let rate0 = (p.min_feerate as u64).max(1).min(p.max_feerate as u64);
+            let c0 = Content { feerate: rate0 as u32, to_holder: value.saturating_sub(rate0 * w0 / 1000).saturating_sub(if anchors { 660 } else { 0 }), to_cp: 0, offered: vec![], received: vec![] };
+            let r = w.with_chan(ci, |ch| ch.sign_counterparty_commitment_tx_phase2(&p0, 0, c0.feerate, c0.to_holder, c0.to_cp, vec![], vec![]));
+            st.class(format!("after-refused-setup:cp-sign:{}", r.tag()));
+            if r.is_ok() {
+                return ctx.report(st, Violation::new(
+                    "C05:commitment-accepted-for-refused-setup",
+                    format!("setup was refused ({}) but a counterparty commitment was then signed for the channel: type {:?} delays holder_selected={} counterparty_selected={} policy [{},{}]", setup_res.err_msg(), ctype, hd, cd, p.min_delay, p.max_delay),
+                ));
+            }
+            let again = w.setup_chan(ci);
+            st.class(format!("after-refused-setup:retry:{}", again.tag()));
+            if again.is_ok() {
+                return ctx.report(st, Violation::new(
+                    "C05:setup:refused-then-accepted-on-retry",
+                    format!("setup was refused ({}) and the identical request was accepted on retry: type {:?} delays {} {}", setup_res.err_msg(), ctype, hd, cd),
+                ));
+            }
+            st.nontrivial_shape(("setup-refused", case.ctype % 16, hd < p.min_delay, hd > p.max_delay, cd < p.min_delay, cd > p.max_delay));
             return Ok(());
         }
         let height = w.node.get_tracker().height();
